@@ -128,6 +128,15 @@ class Ctx:
         raise ValueError(t)
 
 
+def strided_parent(e):
+    if e[0] == "slice":
+        i = e[2]
+        return (not isinstance(i, int) and i[2] not in (None, 1)) or strided_parent(e[1])
+    if e[0] == "cat":
+        return any(strided_parent(p) for p in e[1])
+    return False
+
+
 def has_ref(e):
     return e[0] in ("pref", "bref") or (e[0] == "slice" and has_ref(e[1])) or (e[0] == "cat" and any(has_ref(p) for p in e[1]))
 
@@ -156,6 +165,8 @@ def check_case(case):
     pbits = ref_bits(parent, widths)
     w = len(pbits)
     kind, pos = classify(w, idx)
+    if strided_parent(parent) and kind in ("int_ok", "must_accept"):
+        kind = "may_reject"  # acceptance is only required over unit-step parents
     expected = None if pos is None else [pbits[p] for p in pos]
     expr = ["slice", parent, idx]
     label = "%s of width %d indexed %r" % (parent[0], w, idx)
@@ -231,6 +242,8 @@ def _eval(res, case):
     for sig, detail in fails:
         res.fail(sig, case, detail)
     feats = [info["kind"], "parent_" + case["parent"][0], "accepted" if info["accepted"] else "rejected"]
+    if strided_parent(case["parent"]):
+        feats.append("strided_parent")
     if info["kind"] == "may_reject":
         feats.append("may_reject_" + ("accepted" if info["accepted"] else "rejected"))
     res.case(case, nontrivial(case), feats, key=json.dumps([case["parent"], case["index"], case["widths"]], sort_keys=True))
@@ -294,6 +307,14 @@ def shard(idx, n, tier):
                 return ["cat", parts]
             base = parent(depth + 1)
             bw = len(ref_bits(base, widths))
+            if not has_ref(base) and draw(st.integers(0, 9)) < 3:
+                # strided / reversed parent slice (may be rejected; if accepted it must mean what Python means)
+                for _ in range(4):
+                    a = draw(st.one_of(st.none(), st.integers(-bw, bw)))
+                    b = draw(st.one_of(st.none(), st.integers(-bw, bw)))
+                    c = draw(st.sampled_from([2, 3, -1, -2, -3]))
+                    if list(range(bw))[slice(a, b, c)]:
+                        return ["slice", base, [a, b, c]]
             # a valid unit-step sub-range (reference parents: explicit non-negative bounds only)
             a = draw(st.integers(0, bw - 1))
             b = draw(st.integers(a + 1, bw))
